@@ -82,6 +82,10 @@ pub enum Fault {
 struct Sched {
     /// when true every call parks until released
     enabled: bool,
+    /// when true a read parks a second time after it was executed (its response is held back)
+    post_reads: bool,
+    /// arrival log: (ticket, proc, op, path, phase) in arrival order
+    arrivals: Vec<(u64, u32, Op, String, u8)>,
     /// when true every call yields once (returns Pending and wakes itself) before executing:
     /// makes every backend call a suspension point for the DropPoller
     yield_once: bool,
@@ -194,6 +198,23 @@ impl TraceStore {
             }
         };
         if let Some(t) = ticket {
+            {
+                let mut st = self.state.lock().unwrap();
+                st.sched.arrivals.push((t, current_proc(), op, path.to_string(), 0));
+                st.seq += 1;
+                let seq = st.seq;
+                st.events.push(Event {
+                    seq,
+                    mutation: 0,
+                    proc_: current_proc(),
+                    op,
+                    path: path.to_string(),
+                    path2: None,
+                    mode: "",
+                    res: "parked",
+                    payload: None,
+                });
+            }
             ParkFuture {
                 state: self.state.clone(),
                 ticket: t,
@@ -221,6 +242,38 @@ impl TraceStore {
             }
         }
         Ok((None, mutation))
+    }
+
+    /// Second park point of a read: the backend has answered, the response is held back.
+    async fn post_park(&self, op: Op, path: &Path) {
+        let ticket = {
+            let mut st = self.state.lock().unwrap();
+            if st.sched.enabled && st.sched.post_reads {
+                let t = st.sched.next_ticket;
+                st.sched.next_ticket += 1;
+                st.sched.parked.insert(
+                    t,
+                    Parked {
+                        proc_: current_proc(),
+                        op,
+                        path: path.to_string(),
+                        waker: None,
+                        released: false,
+                    },
+                );
+                st.sched.arrivals.push((t, current_proc(), op, path.to_string(), 1));
+                Some(t)
+            } else {
+                None
+            }
+        };
+        if let Some(t) = ticket {
+            ParkFuture {
+                state: self.state.clone(),
+                ticket: t,
+            }
+            .await;
+        }
     }
 
     #[allow(clippy::too_many_arguments)]
@@ -392,6 +445,9 @@ impl TraceHandle {
     }
 
     // ---- scheduling -------------------------------------------------------
+    pub fn sched_post_reads(&self, on: bool) {
+        self.state.lock().unwrap().sched.post_reads = on;
+    }
     pub fn sched_enable(&self, on: bool) {
         let mut st = self.state.lock().unwrap();
         st.sched.enabled = on;
@@ -522,6 +578,8 @@ impl ObjectStore for TraceStore {
             Err(e) => classify(e),
         };
         self.record(Op::Get, location, None, "", res, None, 0);
+        // InMemory returns the bytes eagerly, so the answer is fixed now; hold the response back
+        self.post_park(Op::Get, location).await;
         r
     }
 
